@@ -170,17 +170,19 @@ class PCACD(StreamingDetector):
                 )
 
                 # Compute reference distribution
+                # (each retained component has its own histogram support)
+                self.lower, self.upper = {}, {}
                 for i in range(self.num_pcs):
 
                     if self.divergence_metric == "intersection":
                         # Histograms need the same bin edges so find bounds from
                         # both windows to inform range for reference and test
-                        self.lower = min(
+                        self.lower[i] = min(
                             self._reference_pca_projection.iloc[:, i].min(),
                             self._test_pca_projection.iloc[:, i].min(),
                         )
 
-                        self.upper = max(
+                        self.upper[i] = max(
                             self._reference_pca_projection.iloc[:, i].max(),
                             self._test_pca_projection.iloc[:, i].max(),
                         )
@@ -188,7 +190,7 @@ class PCACD(StreamingDetector):
                         self._density_reference[f"PC{i + 1}"] = self._build_histograms(
                             self._reference_pca_projection.iloc[:, i],
                             bins=self.bins,
-                            bin_range=(self.lower, self.upper),
+                            bin_range=(self.lower[i], self.upper[i]),
                         )
 
                     else:
@@ -213,11 +215,11 @@ class PCACD(StreamingDetector):
             # Winsorize incoming data to align with reference and test histograms
             if self.divergence_metric == "intersection":
                 for i in range(self.num_pcs):
-                    if next_proj.iloc[0, i] < self.lower:
-                        next_proj.iloc[0, i] = self.lower
+                    if next_proj.iloc[0, i] < self.lower[i]:
+                        next_proj.iloc[0, i] = self.lower[i]
 
-                    elif next_proj.iloc[0, i] > self.upper:
-                        next_proj.iloc[0, i] = self.upper
+                    elif next_proj.iloc[0, i] > self.upper[i]:
+                        next_proj.iloc[0, i] = self.upper[i]
 
             # Add projection to test projection data
             self._test_pca_projection = pd.concat(
@@ -237,7 +239,7 @@ class PCACD(StreamingDetector):
                         self._density_test[f"PC{i + 1}"] = self._build_histograms(
                             self._test_pca_projection.iloc[:, i],
                             bins=self.bins,
-                            bin_range=(self.lower, self.upper),
+                            bin_range=(self.lower[i], self.upper[i]),
                         )
 
                     elif self.divergence_metric == "kl":
